@@ -63,6 +63,46 @@ def session_survives(msgs, pname='v2'):
         sessions.close_loop(loop)
 
 
+def session_survives_stream(junk1, junk2, cut, chunk, pname='v2', max_size=200):
+    """an over-long line (junk1 bytes, delivered in `chunk`-byte pieces), more of it (junk2 bytes, no newline), then its
+    newline followed in the same piece by the first `cut` bytes of a valid request, the rest of the request after that:
+    is the request answered (or the connection closed)?  The framer's limit is lowered to `max_size` to keep this small."""
+    from aiorpcx import session, jsonrpc, framing
+    loop = sessions.new_loop()
+    try:
+        class S(session.RPCSession):
+            async def handle_request(self, request):
+                return 'pong'
+
+            def default_connection(self):
+                return jsonrpc.JSONRPCConnection(cc.proto_class(pname))
+        proto, ft, s = sessions.attach(S, kind='server', framer=framing.NewlineFramer(max_size=max_size))
+
+        async def main():
+            probe = (b'{"jsonrpc":"2.0","method":"ping","params":[],"id":4242}' if pname != 'v1' else b'{"method":"ping","params":[],"id":4242}') + b'\n'
+            data = b'x' * junk1
+            pieces = [data[i:i + chunk] for i in range(0, len(data), chunk)]
+            tail = b'y' * junk2
+            pieces += [tail[i:i + chunk] for i in range(0, len(tail), chunk)]
+            pieces += [b'\n' + probe[:cut], probe[cut:]]
+            for piece in pieces:
+                if piece:
+                    proto.data_received(piece)
+                    await asyncio.sleep(0.01)
+            await asyncio.sleep(1.0)
+            answered = any(isinstance(x, dict) and x.get('id') == 4242 and x.get('result') == 'pong' for x in sessions.sent_messages(ft, 0))
+            # a second request, to tell "swallowed one request" from "wedged for good"
+            n0 = len(ft.written)
+            proto.data_received(probe.replace(b'4242', b'4243'))
+            await asyncio.sleep(1.0)
+            later = any(isinstance(x, dict) and x.get('id') == 4243 for x in sessions.sent_messages(ft, n0))
+            return {'answered': answered, 'closed': ft.closing or ft.lost, 'later_request_answered': later, 'errors': s.errors,
+                    'loop_alive': not proto._process_messages_task.done()}
+        return loop.run_until_complete(main())
+    finally:
+        sessions.close_loop(loop)
+
+
 class C05(Prop):
     id = 'C05'
     coq_header = cm.HEADER
@@ -75,7 +115,8 @@ class C05(Prop):
             'id / member, wrong-typed members, nesting of 3000 and 100000, integers of 4301..6000 digits, unhashable ids, '
             'mixed-type ids in response batches) followed by a valid request; observed: exception class escaping '
             'receive_message, well-formedness of the error reply; session level: the same streams into a serving RPCSession '
-            'followed by a probe request (answered, or connection closed); non-trivial = a message that is not valid JSON-RPC; '
+            'followed by a probe request (answered, or connection closed), and byte streams not cut at message boundaries (an '
+            'over-long line in pieces, the probe in pieces right behind it); non-trivial = a message that is not valid JSON-RPC; '
             'distinct = distinct (protocol, state, message)')
 
     def corpus(self):
@@ -210,6 +251,25 @@ class C05(Prop):
                 if not o['answered'] and not o['closed']:
                     out.append(Failure({'kind': 'session', 'proto': p, 'msgs': [list(m[:200]) for m in msgs], 'lens': [len(m) for m in msgs]}, o,
                                        'after these messages the session neither answers a valid request nor has closed the connection'))
+        # the same for byte STREAMS that are not cut at message boundaries: an over-long line arriving in pieces, then a
+        # valid request arriving in pieces right behind it
+        combos = [(j1, j2, cut, ch) for j1 in (201, 450, 1000) for j2 in (0, 150, 199) for cut in (0, 1, 30) for ch in (64, 199, 1000)]
+        if ctx['tier'] == 'quick':
+            combos = [c for i, c in enumerate(combos) if i % 4 == 0] + [(450, 150, 30, 64), (1000, 199, 1, 64), (201, 199, 30, 199)]
+        for j1, j2, cut, ch in combos:
+            for p in (['v2'] if ctx['tier'] == 'quick' else ['v2', 'loose', 'auto', 'v1']):
+                o = session_survives_stream(j1, j2, cut, ch, p)
+                ctx['extra_evals'] += 1
+                ctx['extra_nontrivial'] += 1
+                k = 'stream_' + ('answered' if o['answered'] else 'closed' if o['closed'] else 'SWALLOWED')
+                ctx['hist'][k] = ctx['hist'].get(k, 0) + 1
+                if not o['answered'] and not o['closed']:
+                    out.append(Failure({'kind': 'stream', 'proto': p, 'over_long_line': j1, 'more_of_it': j2, 'request_bytes_with_the_newline': cut,
+                                        'piece_size': ch, 'framer_limit': 200}, o,
+                                       'a valid request arriving in pieces behind an over-long line was neither answered nor was the connection closed'))
+                    break
+            if len(out) >= 3:
+                break
         return out
 
 
